@@ -128,11 +128,11 @@ Ltac fr_step leaf :=
   | apply frp_modify_model; fr_side
   | apply frp_set_model; fr_side
   | apply frp_modify_node; [ fr_side .. | intros ?; solve [leaf] ]
-  | apply frp_try; [ fr_side .. | ]
+  | match goal with |- frp _ _ (wtry _) => apply frp_try; [ fr_side .. | ] end
   | match goal with
     | |- frp _ _ (wbind (get_node ?i) _) => apply frp_get; [ fr_side .. | intros ? ]
     end
-  | apply frp_bind; [ fr_side .. | | intros ? ]
+  | match goal with |- frp _ _ (wbind _ _) => apply frp_bind; [ fr_side .. | | intros ? ] end
   | apply frp_at_set; [ fr_side .. | solve [leaf] ]
   | match goal with
     | |- frp_at _ _ _ _ (wbind ?m _) =>
@@ -145,5 +145,6 @@ Ltac fr_step leaf :=
     | |- frp_at _ _ _ _ (match ?x with _ => _ end) => destruct x eqn:?
     | |- frp_at _ _ _ _ (if ?b then _ else _) => destruct b
     end
+  | progress cbv zeta
   | apply frp_at_frp ].
 Ltac fr_tac leaf := repeat (fr_step leaf).
